@@ -279,6 +279,19 @@ func (s *sys) applyPH(args []string) string {
 		f := w.foreignVS()
 		ph.Header.ValidatorSet.Validators = f.Validators
 		ph.Header.ValidatorSet.PubKeys = f.PubKeys
+	case "forgedNextPK", "forgedCurPK":
+		// Only the redundant PubKeys list is replaced (same length): Validators, hashes and signature are intact, but
+		// PubKeys is the list signature verification uses.
+		vs := &ph.Header.NextValidatorSet
+		if variant == "forgedCurPK" {
+			vs = &ph.Header.ValidatorSet
+		}
+		f := w.foreignVS()
+		pks := make([]gcrypto.PubKey, len(vs.PubKeys))
+		for i := range pks {
+			pks[i] = f.PubKeys[i%len(f.PubKeys)]
+		}
+		vs.PubKeys = pks
 	case "badhash":
 		ph.Header.DataID = []byte("tampered")
 	case "nonval":
